@@ -29,6 +29,9 @@ import (
 // Case is one generated description.
 type Case struct {
 	Model sg.Model `json:"model"`
+	// Long is the recipe of one very long physical line written into the description before it is rendered
+	// (extra_test.go); nil for most cases.
+	Long *LongLine `json:"long,omitempty"`
 }
 
 var (
@@ -155,6 +158,28 @@ func readBoth(w *written) (nh, ny any, err error) {
 	if err != nil {
 		return nil, nil, fmt.Errorf("ReadAmmoConfig(x.yaml) failed for a description that is valid in both syntaxes: %w", err)
 	}
+	return compareRead(w, ch, cy)
+}
+
+// readBothSame is readBoth for a description of which it is not said that it is valid (one without scenarios): the
+// two renderings must both load - then they are compared as in readBoth - or both be rejected (loaded = false).
+func readBothSame(w *written) (loaded bool, err error) {
+	fs := pand.FS()
+	ch, eh := config.ReadAmmoConfig(fs, w.hcl)
+	cy, ey := config.ReadAmmoConfig(fs, w.yml)
+	switch {
+	case eh != nil && ey != nil:
+		return false, nil
+	case eh != nil:
+		return false, fmt.Errorf("ReadAmmoConfig accepts x.yaml and rejects x.hcl, the same description: %w", eh)
+	case ey != nil:
+		return false, fmt.Errorf("ReadAmmoConfig accepts x.hcl and rejects x.yaml, the same description: %w", ey)
+	}
+	_, _, err = compareRead(w, ch, cy)
+	return true, err
+}
+
+func compareRead(w *written, ch, cy *config.AmmoConfig) (nh, ny any, err error) {
 	nh, ny = norm(ch), norm(cy)
 	want := wantConfig(w.m)
 	if d := diff(ny, want, "AmmoConfig", "x.yaml", "the description"); d != "" {
@@ -170,6 +195,10 @@ func readBoth(w *written) (nh, ny any, err error) {
 }
 
 func checkWith(c Case, o *vf.Obs, r *vf.Run) (err error) {
+	c.Model, err = applyLong(c.Model, c.Long)
+	if err != nil {
+		return err
+	}
 	classify(c.Model, o)
 	w, err := write(c.Model)
 	if err != nil {
@@ -177,6 +206,7 @@ func checkWith(c Case, o *vf.Obs, r *vf.Run) (err error) {
 	}
 	defer w.remove()
 	classifyYAMLStyles(w, o)
+	classifyLong(c.Long, w, o)
 	defer func() {
 		if err != nil {
 			o.Note("x.hcl", w.hclText)
@@ -187,6 +217,9 @@ func checkWith(c Case, o *vf.Obs, r *vf.Run) (err error) {
 		if _, err := sg.EvalLocals(c.Model.Locals); err != nil {
 			return fmt.Errorf("harness: the description's own locals do not evaluate: %w", err)
 		}
+	}
+	if len(c.Model.Scenarios) == 0 {
+		return checkNoScenarios(w, o)
 	}
 	if _, _, err := readBoth(w); err != nil {
 		return err
@@ -337,6 +370,9 @@ func classify(m sg.Model, obs *vf.Obs) {
 		o.Class("yaml_key_order_permuted")
 		for _, ym := range sg.YAMLMappings(m) {
 			if ym.Path == "" {
+				if len(m.Scenarios) == 0 {
+					continue // no scenarios section at all
+				}
 				o.ClassIf(ym.Keys[len(ym.Keys)-1] != "scenarios", "yaml_scenarios_section_not_last")
 				o.ClassIf(ym.Keys[0] == "scenarios" && len(ym.Keys) > 1, "yaml_scenarios_section_first")
 				continue
@@ -499,14 +535,14 @@ func (c *classSet) ClassIf(cond bool, name string) {
 func TestEquivalence(t *testing.T) {
 	pand.Init()
 	r := vf.Start(t, "C16")
-	vf.Check(r, func(t *rapid.T) Case { return Case{Model: steer(r, t, optsPlain)} },
+	vf.Check(r, func(t *rapid.T) Case { return genCase(r, t, optsPlain) },
 		func(c Case, o *vf.Obs) error { return checkWith(c, o, r) })
 }
 
 func TestLocals(t *testing.T) {
 	pand.Init()
 	r := vf.Start(t, "C16")
-	vf.Check(r, func(t *rapid.T) Case { return Case{Model: steer(r, t, optsLocals)} },
+	vf.Check(r, func(t *rapid.T) Case { return genCase(r, t, optsLocals) },
 		func(c Case, o *vf.Obs) error { return checkWith(c, o, r) })
 }
 
